@@ -321,7 +321,8 @@ Inductive uclass :=
 | UBadProjectRoot       (* --project-root <missing or not a directory> *)
 | UBadInlineRules       (* file-placement --rules <invalid JSON> *)
 | UGroupMissingConfig   (* thailint --config <file that does not exist> <cmd> *)
-| UEmptyConfig.         (* <cmd> --config <empty but valid YAML file>: the run CAN be performed *)
+| UEmptyConfig          (* <cmd> --config <empty but valid YAML file>: the run CAN be performed *)
+| UThreshold (v : Z).   (* <cmd> <integer-valued threshold option of the command> v (Gen threshold_options): invalid exactly when v is not positive *)
 
 Inductive outcome := OExit (code : Z) | OPerformed.
 
@@ -344,11 +345,18 @@ Definition usage_outcome (q : oquirks) (cmd : string) (c : uclass) : outcome :=
   | UEmptyConfig =>
     (* flag on: as the source has it (Gen: is the result of yaml.safe_load guarded with `or {}`?) *)
     if q_dry_empty_config_crashes q && negb dry_config_null_guard && String.eqb cmd "dry" then site "linting_error" else OPerformed
+  | UThreshold v =>
+    (* the override reaches the configuration class, whose validator (Gen: smallest accepted value) raises ValueError -> handle_linting_error *)
+    if (v <? threshold_min_valid)%Z then site "linting_error" else OPerformed
   end.
 
 (* what the property demands *)
 Definition spec_outcome (c : uclass) : outcome :=
-  match c with UEmptyConfig => OPerformed | _ => OExit 2 end.
+  match c with
+  | UEmptyConfig => OPerformed
+  | UThreshold v => if (v <=? 0)%Z then OExit 2 else OPerformed      (* thresholds "must be positive" *)
+  | _ => OExit 2
+  end.
 
 (* ------------------------------------------------------------------ a rule that fails while a file is linted *)
 (* exception classes by their builtin ancestry (CPython; the harness checks it with issubclass every run) *)
